@@ -265,9 +265,11 @@ def i_JAL(ins, fmap):
 
 def i_JALR(ins, fmap):
     dst, src1, imm = ins.operands
+    # the target (least-significant bit cleared) is computed before the link register is written: rd may be rs1
+    target = fmap((src1 + imm) & ~1)
     if dst is not zero:
         fmap[dst] = fmap(pc + ins.length)
-    fmap[pc] = fmap(src1 + imm)
+    fmap[pc] = target
 
 
 def i_BEQ(ins, fmap):
